@@ -10,7 +10,7 @@ RULE = ("starting message (API-built or parsed from wire bytes) + up to 40 edits
         "before every edit, max_size tight; a case is non-trivial when the start was accepted "
         "and >= 2 edits succeeded on the implementation; distinct = distinct case lines")
 
-STEP = re.compile(r"^(?:start=(\S+)|([01])) \[(.*?)\] b=(\S+) rp=(=|\[.*?\])( SPECDIFF@\S+)?$")
+STEP = re.compile(r"^(?:start=(\S+)|([01])) \[(.*?)\] b=(\S+) h=(\S+) rp=(=|\[.*?\])( SPECDIFF@\S+)?$")
 
 
 def parse_out(out):
@@ -22,17 +22,17 @@ def parse_out(out):
         if not m:
             return None
         steps.append((m.group(1) if m.group(1) is not None else int(m.group(2)), m.group(3),
-                      m.group(4), m.group(5)))      # (ret, dump, buffer, re-parse verdict)
+                      m.group(4), m.group(6), m.group(5)))   # (ret, dump, buffer, re-parse, header)
     res = {"start": steps[0][0], "steps": steps, "wire": None, "reparse": None, "dup": None}
     for s in segs[1:]:
         m = re.match(r"^wire=(\S+) reparse=\[(.*?)\]$", s)
         if m:
             res["wire"], res["reparse"] = m.group(1), m.group(2)
             continue
-        m = re.match(r"^dup=(NULL|\[(.*?)\] b=(\S+) rp=(=|\[.*?\]))( SPECDIFF@\S+)?$", s)
+        m = re.match(r"^dup=(NULL|\[(.*?)\] b=(\S+) h=(\S+) rp=(=|\[.*?\]))( SPECDIFF@\S+)?$", s)
         if m:
             res["dup"] = "NULL" if m.group(1) == "NULL" else m.group(2)
-            res["dup_rp"] = m.group(4)
+            res["dup_rp"] = m.group(5)
             continue
         return None
     return res
@@ -80,13 +80,22 @@ def oracle(line, out, in_scope, notes=None):
     steps_scope = in_scope if isinstance(in_scope, list) else [in_scope] * (len(edits) + 2)
     in_scope = steps_scope[len(edits)]
     for i, e in enumerate(edits):
-        r, dump, _, _ = o["steps"][i + 1]
+        r, dump = o["steps"][i + 1][0], o["steps"][i + 1][1]
         note = [] if notes is not None else None
         er, ed = gen_edit.spec_step(d, mx, e, note)
         if r != er or dump != gen_edit.fmt_dump(ed):
             return ("edit %d (%s): returned %s, message [%s]; the edit applied to the message "
                     "before it gives %s, [%s]" % (i + 1, " ".join(e)[:80], r, dump, er,
                                                   gen_edit.fmt_dump(ed)))
+        hdr = o["steps"][i + 1][4]
+        if hdr != "-":
+            dd = gen_edit.parse_dump(dump)
+            tl = gen_edit.plen(dd["k"])
+            exp = "%02x%02x%04x" % (0x40 | (dd["t"] << 4) | (tl if tl < 13 else 13 if tl < 269 else 14),
+                                    dd["c"], dd["m"])
+            if hdr != exp:
+                return ("after edit %d (%s) the header in memory is %s, the message [%s] needs %s" %
+                        (i + 1, " ".join(e)[:80], hdr, dump, exp))
         can = canonical(dump)
         if can is not None and not can.startswith("#") and o["steps"][i + 1][2] != can:
             return ("after edit %d (%s) the message is [%s] but the buffer holds %s, not its "
